@@ -43,8 +43,8 @@ TAGS = {
 }
 CORR = (1, 2, 3, 4, 5, 6, 7, 8, 9, 10)
 ORACLE = (11, 12, 13, 14, 15, 16, 17, 18, 19, 20, 21)
-F_DERIV, F_INTKEY, F_DEPORDER, F_SREPR = (
-    'C12-DERIVATIVES-TEXT', 'C12-JSON-INTKEY', 'C12-HASH-DEPVAR-ORDER', 'C12-SREPR-DISTRIBUTES')
+F_DERIV, F_INTKEY, F_DEPORDER, F_SREPR, F_EQDOSING = (
+    'C12-DERIVATIVES-TEXT', 'C12-JSON-INTKEY', 'C12-HASH-DEPVAR-ORDER', 'C12-SREPR-DISTRIBUTES', 'C12-EQ-DOSING-ORDER')
 # fixed in /repo (cee2988, ddb8814, 30e26dc, e582408): C12-JSON-TUPLE, C12-HASH-ORDER, C12-GENERIC-READ,
 # C12-CATEGORIES-MAPPING -- their witnesses stay in regress/C12; a recurrence is a VIOLATION
 
@@ -130,6 +130,18 @@ def cobool(b):
     return 'None' if b is None else f'(Some {ex.cbool(b)})'
 
 
+def opt_obj(kind, o, info, what):
+    """An object that from_dict returned: one the exporter refuses (e.g. a list where the class holds a tuple) is
+    reported like a failed from_dict, so that the comparison with the model fires instead of the case being skipped."""
+    if o is None:
+        return 'None'
+    try:
+        return f'(Some {ex.obj(kind, o)})'
+    except ex.Unconvertible as e:
+        info.setdefault('unconvertible_results', []).append(f'{what}: {e}')
+        return 'None'
+
+
 def observe(kind, x, ctx=None, with_generic=False):
     """One object: returns (coq term of type case, info)."""
     d = x.to_dict()
@@ -164,16 +176,25 @@ def observe(kind, x, ctx=None, with_generic=False):
     enc = None
     if kind == 'model' and dumps_ok:
         enc = 'Some ' + ex.pyv(ex.canon_dict(kind, encoded_dict(x)))
+    info = {}
+    xterm = ex.obj(kind, x)            # the only export that may skip the case (Unconvertible propagates)
+
+    def dict_term(v, what):
+        # a dictionary the exporter refuses (a value json cannot hold) must alarm, not be skipped
+        try:
+            return ex.pyv(v)
+        except ex.Unconvertible as e:
+            info.setdefault('unconvertible_results', []).append(f'{what}: {e}')
+            return 'PNone'
     term = ('(mkCase ' + '\n  '.join([
-        ex.obj(kind, x), ex.pyv(cd), ex.pyv(cd2),
-        'None' if back is None else f'(Some {ex.obj(kind, back)})',
-        'None' if backj is None else f'(Some {ex.obj(kind, backj)})',
+        xterm, dict_term(cd, 'to_dict'), dict_term(cd2, 'json image'),
+        opt_obj(kind, back, info, 'from_dict(to_dict)'), opt_obj(kind, backj, info, 'from_dict(json)'),
         cobool(eq_back), cobool(eq_json), ex.cbool(dumps_ok),
         ex.out_preds(x) if kind == 'csys' else 'None',
         ex.cbool(ok), ex.cbool(idem), cobool(viastr), cobool(viafile),
         'None' if enc is None else f'({enc})']) + ')')
-    info = {'kind': kind, 'leaves': nleaves, 'text_len': len(js), 'eq_back': eq_back, 'eq_json': eq_json,
-            'dumps_ok': dumps_ok}
+    info.update({'kind': kind, 'leaves': nleaves, 'text_len': len(js), 'eq_back': eq_back, 'eq_json': eq_json,
+                 'dumps_ok': dumps_ok})
     return term, info
 
 
@@ -222,8 +243,9 @@ def observe_malformed(kind, x, rng):
     except Exception as e:
         back, err = None, type(e).__name__
     cd = ex.canon_dict_lenient(kind, d)
-    term = f"(mkF {ex.obj(kind, x)}\n  {ex.pyv(cd)}\n  {'None' if back is None else '(Some ' + ex.obj(kind, back) + ')'})"
-    return term, {'kind': kind, 'what': what, 'error': err}
+    info = {'kind': kind, 'what': what, 'error': err}
+    term = f"(mkF {ex.obj(kind, x)}\n  {ex.pyv(cd)}\n  {opt_obj(kind, back, info, 'from_dict(malformed)')})"
+    return term, info
 
 
 def encoded_dict(m):
@@ -689,6 +711,10 @@ def classify(ctx, spec, tags, pair=False):
             fine = 12 in tags and excused_json()
         elif t == 13:
             fine = 204 in tags and not (tags & {5, 8, 9, 10}) and known(F_DEPORDER)
+        elif t == 14:
+            # `==` says different although t, compartments and flows agree (its dosing_compartments depend on the
+            # graph order), the order-blind key says same
+            fine = 209 in tags and not (tags & {5, 8, 9, 10}) and known(F_EQDOSING)
         if not fine:
             ctx.violation(TAGS[t], {'spec': spec, 'pair': pair, 'tags': sorted(tags), 'tag_meaning': TAGS[t]})
             status = 'violation'
@@ -802,7 +828,10 @@ def model_pair_items(ctx, pairs, seeds):
 
 
 def finding_probes(ctx):
-    for f in ctx.findings:
+    by_id = {}
+    for f in ctx.findings:          # known_findings.json first, then the staging file: the later entry of an id wins
+        by_id[f['id']] = f
+    for f in by_id.values():
         if f.get('status') != 'open':
             continue
         w = f['witness']
@@ -959,6 +988,7 @@ def run(ctx):
         'guard_derivatives_false': sum(1 for v in verdicts if 201 in v),
         'guard_intkey_false': sum(1 for v in verdicts if 203 in v),
         'nan': sum(1 for v in verdicts if 205 in v),
+        'results_refused_by_exporter': sum(len(i.get('unconvertible_results', [])) for i in infos),
         'engine_contract_failed': sum(1 for v in verdicts if 17 in v),
         'graphs_not_output_first_or_illformed': sum(1 for v in verdicts if 206 in v),
         'pairs_by_kind': {k: sum(1 for i in pinfos if i['kind'] == k) for k in ('csys', 'model')},
@@ -966,6 +996,7 @@ def run(ctx):
         'pairs_eq_raises': sum(1 for i in pinfos if i['eq'] is None),
         'pairs_equal_but_text_differs': sum(1 for v in pverdicts if 13 in v),
         'pairs_order_differs': sum(1 for v in pverdicts if 204 in v),
+        'pairs_eq_depends_on_dosing_order': sum(1 for v in pverdicts if 209 in v),
         'model_pair_relations': {w: sum(1 for p in mpairs if p.get('why') == w) for w in sorted({p.get('why', 'regress') for p in mpairs})},
         'malformed_dicts': len(mverdicts), 'malformed_impl_raised': sum(1 for i in minfos if i['error']),
         'malformed_impl_accepted': sum(1 for i in minfos if not i['error']),
